@@ -26,8 +26,9 @@ def harness_list(prefix, tier):
     for f in sorted(glob.glob(os.path.join(KANI_DIR, 'src', '*.rs'))):
         mod = os.path.basename(f)[:-3]
         src = open(f).read()
-        for m in re.finditer(r'pub fn (' + prefix + r'\w+)\(\)', src):
-            n = m.group(1)
+        names = [m.group(1) for m in re.finditer(r'pub fn (' + prefix + r'\w+)\(\)', src)]
+        names += [m.group(1) for m in re.finditer(r'_harness!\((' + prefix + r'\w+),', src)]
+        for n in names:
             if n.endswith('_slow') and tier != 'thorough':
                 continue
             if '_witness_must_fail' in n:
@@ -165,7 +166,7 @@ def run_group(run, group, jobs=None):
     jobs = jobs or int(os.environ.get('VERIF_KANI_JOBS', '8'))
     timeout_s = 1500 if run.tier == 'quick' else 4 * 3600
     out, wall, timed_out = run_kani([(m, n) for (m, n, _w) in hs], jobs, timeout_s,
-                                    harness_timeout=240 if run.tier == 'quick' else 3600)
+                                    harness_timeout=240 if run.tier == 'quick' else 900)
     res = parse_terse(out)
     if 'error: could not compile' in out or 'Failed to execute cargo' in out or 'error[E' in out:
         run.inconclusive.append({'engine': 'kani', 'reason': 'harness crate does not compile against /repo',
